@@ -14,10 +14,10 @@ Lines (fields separated by ` ||| `):
   `annotate x=T&y=U`, `annotate_globals g=T`, `select a,b|z=T&w=U`, `drop a,b`, `key_by a,b`, `filter`, `order_by`, `rename a=b,c=d`,
   `explode a`; answer `g=<globals struct> r=<row struct> k=<key fields>` or `none` (the front end refuses a call)
 * `tunion-reported ||| <unify 0/1> ||| pipeline ||| pipeline …` — the type `t0.union(t1, …, unify=…)` reports; `tunion-ir ||| …` — the
-  type the emitted `TableUnion` implies (`ill-typed` when its children disagree); `tjoin ||| pipeline ||| pipeline` — `l.join(r)`
+  type the emitted `TableUnion` implies (`ill-typed` when its children disagree); `tjoin-reported` / `tjoin-ir ||| pipeline ||| pipeline` — `l.join(r)` (reported type / type the emitted `TableJoin` implies, `ill-typed` on a duplicate name)
 * `matrix ||| <view: matrix|rows|cols|entries> ||| op ; op …` — the MatrixTable type after the calls from `range_matrix_table`
   (`annotate rows x=T&y=U`, `select cols a,b|z=T`, `drop a,b`, `key_cols_by [a,b]`, `key_rows_by [a,b]`, `filter rows`), seen as a matrix
-  table or through `.rows()` / `.cols()` / `.entries()`; `munion ||| view ||| left ||| right ||| post` — `left.union_cols(right)` then `post`
+  table or through `.rows()` / `.cols()` / `.entries()`; `munion` / `munion-ir ||| view ||| left ||| right ||| post` — `left.union_cols(right)` then `post` (reported / engine rule)
 * `check ||| <type> ||| <python value>` — `checkPy` of a value against a given type (the type the real `hl.literal` reported)
 Python values: `(none) (b 1) (i 5) (f 2) (s "x") (list v…) (tuple v…) (set v…) (dict (k v)…) (struct (name v)…)`.
 -/
@@ -161,6 +161,18 @@ def showMT (view : String) (m : MType) : String :=
   | "entries" => showTT (entriesTable m)
   | _ => s!"g={showType (.struct (fieldsOfList m.globals))} c={showType (.struct (fieldsOfList m.col))} ck={",".intercalate m.colKey} r={showType (.struct (fieldsOfList m.row))} rk={",".intercalate m.rowKey} e={showType (.struct (fieldsOfList m.entry))}"
 
+def munion (u : MatrixType.MType → MatrixType.MType → Option MatrixType.MType) (view l r post : String) : String :=
+  match runMOps MatrixType.range l, runMOps MatrixType.range r with
+  | .ok (some ml), .ok (some mr) => match u ml mr with
+    | some m => match runMOps m post with
+      | .ok (some m') => showMT view m'
+      | .ok none => "none"
+      | .error e => s!"parse-error {e}"
+    | none => "none"
+  | .error e, _ => s!"parse-error {e}"
+  | _, .error e => s!"parse-error {e}"
+  | _, _ => "none"
+
 def handle (line : String) : String :=
   match line.splitOn " ||| " with
   | ["infer", ctx, t] =>
@@ -197,11 +209,19 @@ def handle (line : String) : String :=
       | none, _ => "none"
     | .ok none => "none"
     | .error e => s!"parse-error {e}"
-  | ["tjoin", l, r] =>
+  | ["tjoin-reported", l, r] =>
     match runBranches [l, r] with
-    | .ok (some [tl, tr]) => match TableType.join tl tr with
+    | .ok (some [tl, tr]) => match TableType.joinReported tl tr with
       | some t => showTT t
       | none => "none"
+    | .ok _ => "none"
+    | .error e => s!"parse-error {e}"
+  | ["tjoin-ir", l, r] =>
+    match runBranches [l, r] with
+    | .ok (some [tl, tr]) => match TableType.joinReported tl tr, TableType.joinIR tl tr with
+      | some _, some t => showTT t
+      | some _, none => "ill-typed"
+      | none, _ => "none"
     | .ok _ => "none"
     | .error e => s!"parse-error {e}"
   | ["matrix", view, ops] =>
@@ -209,17 +229,12 @@ def handle (line : String) : String :=
     | .ok (some m) => showMT view m
     | .ok none => "none"
     | .error e => s!"parse-error {e}"
-  | ["munion", view, l, r, post] =>
-    match runMOps MatrixType.range l, runMOps MatrixType.range r with
-    | .ok (some ml), .ok (some mr) => match MatrixType.unionCols ml mr with
-      | some m => match runMOps m post with
-        | .ok (some m') => showMT view m'
-        | .ok none => "none"
-        | .error e => s!"parse-error {e}"
-      | none => "none"
-    | .error e, _ => s!"parse-error {e}"
-    | _, .error e => s!"parse-error {e}"
-    | _, _ => "none"
+  | ["munion", view, l, r, post] => munion MatrixType.unionCols view l r post
+  | ["munion-ir", view, l, r, post] =>
+    match munion MatrixType.unionCols view l r post, munion MatrixType.unionColsStrict view l r post with
+    | "none", _ => "none"
+    | _, "none" => "ill-typed"
+    | _, s => s
   | ["echo", t] => t
   | _ => "bad-op"
 
